@@ -51,7 +51,8 @@ class C16(object):
 
     def make_case(self, rng, idx, tier):
         if idx == 0:
-            return {'kind': 'ambient', 'models': ['SIM', 'PC'] if tier == 'quick' else ['SIM', 'SIMEX1', 'PC', 'REG']}
+            return {'kind': 'ambient', 'models': ['SIM', 'PC'] if tier == 'quick' else ['SIM', 'SIMEX1', 'PC', 'REG'],
+                    'scripts': 'fast' if tier == 'quick' else 'all'}
         if idx % 5 == 4:
             n = rng.randint(1, 5)
             names = rng.sample(['x', 'y', 't', 'z', 'a', 'tt', 'k'], n)
@@ -278,6 +279,10 @@ class C16(object):
                             out = mod.GetTimeSeries(nm, cutoff=cutoff)
                             out.append(1.0)
                 mod.EquationSolver.GenerateCSVtext()
+            which = case.get('scripts')
+            if which:
+                built += ['script:' + n for n in ambient.run_scripts(
+                    ambient.FAST_SCRIPTS if which == 'fast' else ambient.ALL_SCRIPTS, rec)]
         finally:
             monitors.unpatch(undo)
         for k, v in ins.counters.items():
